@@ -103,6 +103,16 @@ def run(rep, tier, seed):
                 if problems:
                     rep.violation("C09/raw-error", f"{'other-platform branches (' + ', '.join(v for _, v, _ in flags) + ' flipped)' if flip else 'this platform'}, debug logging "
                                   f"{'on' if debug else 'off'}, messages of {size} bytes: {problems[0]}; {len(problems)} problem(s)", replay)
+    for ack in (True, False):
+        elapsed, out = slow_stop_hook_probe(ack)
+        replay = {"kind": "slow-stop-hook", "ack": ack}
+        rep.case(("slow-stop-hook", ack), True, sample={"probe": replay, "elapsed_s": elapsed, "outcome": out})
+        rep.bump("probe:slow-stop-hook")
+        if out == "pending" or elapsed > 15.0:
+            rep.violation("C09/hang", f"client.disconnect() on an established session whose stop callback takes an hour, device {'acknowledges at once' if ack else 'stays silent'}: "
+                          f"the call {'was still pending after 40 s' if out == 'pending' else 'ended after ' + str(elapsed) + ' s'} (bound: 5 s + 10 s)", replay)
+        elif out not in ("ok",) and not out.startswith("L."):
+            rep.violation("C09/raw-error", f"client.disconnect() with a slow stop callback ended with {out}", replay)
     # ... and with the library imported as on Windows (whatever it derives from sys.platform at import time)
     from vlib import otherplatform
     for debug in (False, True):
@@ -291,6 +301,43 @@ def platform_debug_probe(flip, debug, size):
                 st.enter_context(patch.object(importlib.import_module(modname), var, not val))
         st.enter_context(common.debug_logging(debug))
         return simnet.run(go)
+
+
+def slow_stop_hook_probe(ack):
+    """An established session whose stop callback (given at connect time) takes an hour; the application awaits client.disconnect().
+    The call ends within disconnect's documented bound (5 s for a connect in progress + 10 s for the device's answer): the
+    application's own callback is not part of what it waits for. Returns (seconds until it ended, outcome)."""
+    async def go(loop):
+        from aioesphomeapi import api_pb2 as pb
+        net = simnet.Net(loop)
+        with net.patched():
+            async def on_stop(expected):
+                await asyncio.sleep(3600.0)
+            cli, tr = await simnet.connected_client(loop, net, on_stop=on_stop)
+            t0 = loop.time()
+            task = asyncio.ensure_future(cli.disconnect())
+            await simnet.drain(loop)
+            if ack:
+                tr.feed(simnet.plain_msg(pb.DisconnectResponse()))
+                await simnet.drain(loop)
+            for _ in range(40):
+                if task.done():
+                    break
+                await simnet.advance(loop, by=1.0)
+            elapsed = loop.time() - t0
+            if not task.done():
+                task.cancel()
+                out = "pending"
+            elif task.cancelled():
+                out = "C"
+            else:
+                out = "ok" if task.exception() is None else conntrace.exc_name(task.exception())
+            for t in asyncio.all_tasks(loop):
+                if t is not asyncio.current_task():
+                    t.cancel()
+            await simnet.drain(loop)
+        return round(elapsed, 3), out
+    return simnet.run(go)
 
 
 def concurrent_resolve_probe(how):
@@ -519,6 +566,11 @@ def replay(path):
         st = _c06.mk_story(d["major"], d["name"], 1, 1, 1, "HC", 1, "pw")
         print(_c06.outcome_of(_c06.run_plain(st)), _c06.oracle(st["case"]))
         return 0
+    if d.get("kind") == "slow-stop-hook":
+        common.setup_impl_path()
+        r = slow_stop_hook_probe(d["ack"])
+        print(r)
+        return 1 if (r[1] == "pending" or r[0] > 15.0) else 0
     if d.get("kind") == "platform-debug":
         common.setup_impl_path()
         if d.get("imported_as"):
